@@ -178,3 +178,128 @@ func TestVerifC19TLS(t *testing.T) {
 	R.Bound = fmt.Sprintf("concurrent writePacket calls with payload sizes %v on one tlsConn, all interleavings; real read() on the receiving side", cases)
 	R.Write()
 }
+
+// ---- pooled connection that breaks ----------------------------------------------------------------------
+// Event sequences over {send a packet to the peer, the established connection breaks (its next write fails)} on the
+// real connectionPool + tlsConn; the first connection is put into the pool by hand over an in-memory wire, any
+// re-dial goes to a closed loopback port and fails at once. Oracle: a packet is either delivered intact or its
+// send reports an error, and once a write on a pooled connection has failed the pool never hands that connection
+// out again (it dials anew; here that fails, which is an honest error, not a silent loss).
+
+type c19BreakWire struct {
+	c19Wire
+	broken bool
+}
+
+func (w *c19BreakWire) Write(b []byte) (int, error) {
+	if w.broken {
+		return 0, fmt.Errorf("write: connection reset by peer")
+	}
+	return w.c19Wire.Write(b)
+}
+
+func c19PoolSeq(seq []int) (viol, desc, obs string) {
+	pool, err := newConnectionPool(nil)
+	if err != nil {
+		panic(err)
+	}
+	defer pool.shutdown()
+	const addr = "127.0.0.1:1"
+	timeout := 200 * time.Millisecond
+	wire := &c19BreakWire{}
+	first := &tlsConn{connection: wire, live: true}
+	pool.cache.Add(fmt.Sprintf("%s/%d", addr, int64(timeout)), first)
+	failed := false // a write on `first` has failed
+	sent := 0
+	for step, e := range seq {
+		switch e {
+		case 0:
+			conn, err := pool.borrowConnection(addr, timeout)
+			switch {
+			case err != nil:
+				obs += "E "
+				if !failed {
+					return "healthy-pooled-connection-not-used", fmt.Sprintf("step %d: borrowConnection failed (%v) although the pooled connection never failed", step, err), obs
+				}
+			case conn == first && failed:
+				return "broken-connection-handed-out-again", fmt.Sprintf("step %d: the pool returned the connection whose last write failed", step), obs
+			default:
+				werr := conn.writePacket("127.0.0.1:7000", []byte{byte('a' + sent%26)})
+				if werr != nil {
+					obs += "W "
+					if conn == first {
+						failed = true
+					}
+				} else {
+					obs += "S "
+					sent++
+				}
+			}
+		case 1:
+			wire.broken = true
+			obs += "B "
+		}
+	}
+	// everything reported as sent arrived intact
+	got := 0
+	for {
+		p, err := rcvTLSConn(&wire.c19Wire).read()
+		if err != nil {
+			break
+		}
+		if p == nil || len(p.Buf) != 1 || p.Buf[0] != byte('a'+got%26) {
+			return "packet-corrupted", fmt.Sprintf("packet %d arrived as %v", got, p), obs
+		}
+		got++
+	}
+	if got != sent {
+		return "packet-reported-sent-but-not-delivered", fmt.Sprintf("%d packets reported as sent, %d arrived", sent, got), obs
+	}
+	return "", "", obs
+}
+
+func TestVerifC19TLSPool(t *testing.T) {
+	part := "tls-pool-broken-connection"
+	R := rep.New("C19", part)
+	names := []string{"send a packet", "the established connection breaks"}
+	if rp := rep.ReplaySpec(); rp != nil {
+		if rp["part"] != part {
+			return
+		}
+		v, d, o := c19PoolSeq(rep.Ints(rp["events"]))
+		fmt.Printf("REPLAY violation=%q %s obs=%s\n", v, d, o)
+		R.Executions = 1
+		if v != "" {
+			R.Violate(v, d, rp)
+		}
+		R.Write()
+		return
+	}
+	depth := 6
+	var rec func(seq []int)
+	rec = func(seq []int) {
+		if len(seq) > 0 {
+			v, d, o := c19PoolSeq(seq)
+			R.Executions++
+			R.Transitions += int64(len(seq))
+			R.AddKey(o)
+			if v != "" && R.NViolations < 5 {
+				var nm []string
+				for _, e := range seq {
+					nm = append(nm, names[e])
+				}
+				R.Violate(v, fmt.Sprintf("[%s]: %s", strings.Join(nm, ", "), d), map[string]any{"part": part, "events": seq})
+			}
+		}
+		if len(seq) == depth {
+			return
+		}
+		for e := range names {
+			rec(append(append([]int{}, seq...), e))
+		}
+	}
+	rec(nil)
+	R.Exhaustive = true
+	R.Bound = fmt.Sprintf("all sequences of <= %d events over %v on the real connection pool", depth, names)
+	R.Write()
+}
